@@ -341,6 +341,7 @@ func runInChild(cs c02Case, ev map[string]any) map[string]any {
 	cmd := exec.Command(os.Args[0], "c02child", dir+"/in.json", dir+"/out.ndjson")
 	var stderr bytes.Buffer
 	cmd.Stderr = &stderr
+	cmd.Env = append(os.Environ(), "GOMAXPROCS=2")
 	runErr := cmd.Run()
 	if out, rerr := os.ReadFile(dir + "/out.ndjson"); runErr == nil && rerr == nil {
 		var got map[string]any
@@ -357,6 +358,45 @@ func runInChild(cs c02Case, ev map[string]any) map[string]any {
 	return ev
 }
 
+// runChunkInChild runs several QUIC cases in one child process; nil if the child did not deliver every event.
+func runChunkInChild(part []c02Case) []map[string]any {
+	dir, err := os.MkdirTemp("", "wirea-chunk-")
+	if err != nil {
+		panic(err)
+	}
+	defer os.RemoveAll(dir)
+	in, _ := json.Marshal(map[string]any{"cases": part})
+	if err := os.WriteFile(dir+"/in.json", in, 0o600); err != nil {
+		panic(err)
+	}
+	cmd := exec.Command(os.Args[0], "c02child", dir+"/in.json", dir+"/out.ndjson")
+	cmd.Env = append(os.Environ(), "GOMAXPROCS=2")
+	if cmd.Run() != nil {
+		return nil
+	}
+	out, err := os.ReadFile(dir + "/out.ndjson")
+	if err != nil {
+		return nil
+	}
+	var evs []map[string]any
+	for _, line := range bytes.Split(bytes.TrimSpace(out), []byte("\n")) {
+		var got map[string]any
+		if json.Unmarshal(line, &got) != nil || got["ev"] != "Hello" {
+			return nil
+		}
+		evs = append(evs, got)
+	}
+	if len(evs) != len(part) {
+		return nil
+	}
+	for j := range evs {
+		if sc, _ := evs[j]["sc"].(float64); int(sc) != part[j].Sc {
+			return nil
+		}
+	}
+	return evs
+}
+
 // c02: {"cases":[{sc, src, cfg}]} -> one "Hello" event per case, in order.
 func init() {
 	hlib.Register("c02", func(in []byte, out *hlib.Out) error {
@@ -366,7 +406,39 @@ func init() {
 		}
 		res := make([]map[string]any, len(req.Cases))
 		errs := make([]error, len(req.Cases))
-		hlib.Parallel(len(req.Cases), func(i int) { res[i], errs[i] = runC02(req.Cases[i]) })
+		// QUIC cases go to child processes in chunks; a chunk whose child dies is repeated one case per child
+		var quic, plain []int
+		for i, c := range req.Cases {
+			if c.Cfg.QUIC {
+				quic = append(quic, i)
+			} else {
+				plain = append(plain, i)
+			}
+		}
+		const chunk = 48
+		nchunks := (len(quic) + chunk - 1) / chunk
+		hlib.Parallel(len(plain)+nchunks, func(k int) {
+			if k < len(plain) {
+				i := plain[k]
+				res[i], errs[i] = runC02(req.Cases[i])
+				return
+			}
+			k -= len(plain)
+			idx := quic[k*chunk : min((k+1)*chunk, len(quic))]
+			part := make([]c02Case, len(idx))
+			for j, i := range idx {
+				part[j] = req.Cases[i]
+			}
+			if evs := runChunkInChild(part); evs != nil {
+				for j, i := range idx {
+					res[i] = evs[j]
+				}
+				return
+			}
+			for _, i := range idx {
+				res[i], errs[i] = runC02(req.Cases[i])
+			}
+		})
 		for i, e := range res {
 			if errs[i] != nil {
 				return fmt.Errorf("case %d: %w", req.Cases[i].Sc, errs[i])
